@@ -1,7 +1,7 @@
 (* Model/BuilderNested.v — property C20, round 5.
-   Builders compiled as a NODE of another builder (compose.Graph.AddGraphNode): the outer Graph and the
-   inner Graphs are all [gstate]s driven by the step function [gstep] of Model/Builder.v; what is new is
-   the coupling — graph.compile compiles the child graph of every node (graphNode.compileIfNeeded ->
+   Builders compiled as a NODE of another builder (compose.Graph.AddGraphNode): the outer Graph is a
+   [gstate], an inner builder a Graph ([gstate], driven by [gstep]) or a Chain ([cstate], driven by [cstep]) of
+   Model/Builder.v; what is new is the coupling — graph.compile compiles the child graph of every node (graphNode.compileIfNeeded ->
    graph.compile with the node's own options), which FREEZES the child exactly like a Compile call of
    its own, and a child that does not compile makes the parent's Compile fail with the child's error.
 
@@ -27,19 +27,47 @@ Fixpoint nupdate {A} (k : string) (v : A) (l : list (string * A)) : list (string
   | (x, w) :: r => if String.eqb k x then (x, v) :: r else (x, w) :: nupdate k v r
   end.
 
-(* the outer Graph, the inner Graph values by name, and which node of the outer graph holds which of them *)
-Record nstate : Type := mkN { ns_out : gstate; ns_inn : list (string * gstate); ns_att : list (string * string) }.
+(* an inner builder: a Graph or a Chain (a Workflow child is exercised by the harness and judged by its oracles only) *)
+Inductive inner : Type := IG (g : gstate) | IC (c : cstate).
+Definition inner_graph (i : inner) : gstate := match i with IG g => g | IC c => c_g c end.
+
+(* the outer Graph, the inner builders by name, and which node of the outer graph holds which of them *)
+Record nstate : Type := mkN { ns_out : gstate; ns_inn : list (string * inner); ns_att : list (string * string) }.
 Definition n_init (has_state : bool) : nstate := mkN (g_init CGraph has_state) [] [].
 
-(* the child graph a case starts from: one lambda node "s"; [ok]: entry and exit edge as well *)
-Definition inner_init (ok : bool) : gstate :=
-  let g1 := fst (gstep fixed (g_init CGraph false) (GAddNode "s" NLambda false false)) in
-  if ok then fst (gstep fixed (fst (gstep fixed g1 (GAddEdge START "s"))) (GAddEdge "s" END_)) else g1.
+(* what a case creates an inner builder as: a Graph with one lambda node "s" ([SKGraph true]: entry and exit edge as
+   well), a Chain with one lambda node ([SKChain true]) or an empty Chain *)
+Inductive skind : Type := SKGraph (ok : bool) | SKChain (ok : bool).
+Definition inner_init (k : skind) : inner :=
+  match k with
+  | SKGraph ok =>
+    let g1 := fst (gstep fixed (g_init CGraph false) (GAddNode "s" NLambda false false)) in
+    IG (if ok then fst (gstep fixed (fst (gstep fixed g1 (GAddEdge START "s"))) (GAddEdge "s" END_)) else g1)
+  | SKChain ok =>
+    IC (if ok then fst (cstep fixed (c_init false) (CAppend NLambda None false)) else c_init false)
+  end.
+
+(* a call on an inner builder; a call of the other kind of builder cannot be written in Go: no-op *)
+Inductive icall : Type := KG (c : gcall) | KC (c : ccall).
+Definition istep (i : inner) (c : icall) : inner * outcome :=
+  match i, c with
+  | IG g, KG c' => let '(g', o) := gstep fixed g c' in (IG g', o)
+  | IC ch, KC c' => let '(ch', o) := cstep fixed ch c' in (IC ch', o)
+  | _, _ => (i, OOk)
+  end.
+
+(* AnyGraph.compile of a child, with its node's options (none): graph.compile, or Chain.compile = addEndIfNeeded +
+   graph.compile — the function the public Compile of that builder runs *)
+Definition inner_compile (i : inner) : inner * outcome :=
+  match i with
+  | IG g => let '(g', o) := g_compile fixed g opt_default in (IG g', o)
+  | IC ch => let '(ch', o) := c_compile fixed ch opt_default in (IC ch', o)
+  end.
 
 Inductive ncall : Type :=
 | NOuter (c : gcall)                       (* a call on the outer Graph *)
-| NSub (k id : string) (ok : bool)         (* outer.AddGraphNode(k, inner[id]); inner[id] is created on first use *)
-| NInner (id : string) (c : gcall).        (* a call on inner[id] (Add* or its own Compile) *)
+| NSub (k id : string) (kd : skind)        (* outer.AddGraphNode(k, inner[id]); inner[id] is created on first use *)
+| NInner (id : string) (c : icall).        (* a call on inner[id] (Add* / Append* or its own Compile) *)
 
 (* graph.compile gets as far as compiling its nodes: every earlier test (build error, option, entry / exit,
    pending inference, untyped node, duplicate mapping target) passed — the tests of [g_compile] in order *)
@@ -55,14 +83,14 @@ Definition reaches_children (g : gstate) (o : copt) : bool :=
 
 (* the children in the given order, each compiled with its node's options (none); stops at the first
    child that does not compile *)
-Fixpoint compile_children (ids : list string) (inn : list (string * gstate)) : list (string * gstate) * option outcome :=
+Fixpoint compile_children (ids : list string) (inn : list (string * inner)) : list (string * inner) * option outcome :=
   match ids with
   | [] => (inn, None)
   | id :: rest =>
     match nlookup id inn with
     | None => compile_children rest inn
     | Some gi =>
-      let '(gi', o) := g_compile fixed gi opt_default in
+      let '(gi', o) := inner_compile gi in
       match o with
       | OCompiled _ => compile_children rest (nupdate id gi' inn)
       | _ => (nupdate id gi' inn, Some o)
@@ -90,13 +118,13 @@ Definition nstep (s : nstate) (c : ncall) : nstate * outcome :=
   match c with
   | NOuter (GCompile o) => n_compile_in (sorted_keys (ns_out s)) s o
   | NOuter c' => let '(g', o) := gstep fixed (ns_out s) c' in (mkN g' (ns_inn s) (ns_att s), o)
-  | NSub k id ok =>
-    let inn := match nlookup id (ns_inn s) with Some _ => ns_inn s | None => ns_inn s ++ [(id, inner_init ok)] end in
+  | NSub k id kd =>
+    let inn := match nlookup id (ns_inn s) with Some _ => ns_inn s | None => ns_inn s ++ [(id, inner_init kd)] end in
     let '(g', o) := g_add_node (ns_out s) k NSubOk false false false in
     (mkN g' inn (match o with OOk => ns_att s ++ [(k, id)] | _ => ns_att s end), o)
   | NInner id c' =>
     match nlookup id (ns_inn s) with
     | None => (s, OOk)
-    | Some gi => let '(gi', o) := gstep fixed gi c' in (mkN (ns_out s) (nupdate id gi' (ns_inn s)) (ns_att s), o)
+    | Some gi => let '(gi', o) := istep gi c' in (mkN (ns_out s) (nupdate id gi' (ns_inn s)) (ns_att s), o)
     end
   end.
